@@ -209,8 +209,9 @@ def configurator_spec(draw, min_items=3, max_items=7, max_rules=4, explicit_p=60
         kind = draw(st.sampled_from(kinds))
         if kind in ("cAny", "cXor"):
             ch = leaves(2, 5)
-            if depth > 0 and draw(st.integers(0, 4)) == 0:
-                ch.append(rule(depth - 1, ["All", "Any", "AtMost", "Xor"]))
+            if depth > 0 and draw(st.integers(0, 2)) == 0:
+                # incl. a defaulted group inside the (possibly non-default) alternatives of this one
+                ch.append(rule(depth - 1, ["All", "Any", "AtMost", "Xor", "cAny", "cXor", "cAny"]))
             node = {"k": kind, "c": ch, "id": new_id()}
             r = draw(st.integers(0, 9))
             lids = [c["id"] for c in ch if c["k"] == "leaf"]
